@@ -92,6 +92,9 @@ pub enum Segmentation {
 pub enum Fault {
     /// the client closes stdin after exactly `at_byte` bytes of the session stream
     Eof { at_byte: usize },
+    /// the client's write end breaks after exactly `at_byte` bytes: once the server has consumed
+    /// them, its next read fails with an I/O error (instead of reporting end of input)
+    ReadError { at_byte: usize },
     /// the client closes its read end once `after_rx_bytes` bytes have been read from stdout
     Epipe { after_rx_bytes: usize },
     /// CLIENT-RX stops reading for `ticks` ticks, starting when segment `from_segment` has been
@@ -108,6 +111,15 @@ pub struct Step {
     /// answered
     #[serde(default, skip_serializing_if = "is_false")]
     pub wait: bool,
+    /// header block of the frame: 0 = `Content-Length` only, 1 = `Content-Length` then
+    /// `Content-Type`, 2 = `Content-Type` then `Content-Length` (all three are legal LSP base
+    /// protocol; the decoder has room for exactly these two headers)
+    #[serde(default, skip_serializing_if = "is_zero")]
+    pub hdr: u8,
+}
+
+fn is_zero(b: &u8) -> bool {
+    *b == 0
 }
 
 fn is_false(b: &bool) -> bool {
@@ -116,10 +128,10 @@ fn is_false(b: &bool) -> bool {
 
 impl Step {
     pub fn new(op: ClientOp) -> Self {
-        Self { op, wait: false }
+        Self { op, wait: false, hdr: 0 }
     }
     pub fn waiting(op: ClientOp) -> Self {
-        Self { op, wait: true }
+        Self { op, wait: true, hdr: 0 }
     }
 }
 
